@@ -581,6 +581,10 @@ func (w *World) VerifyFunc(fn *ssa.Function) *VC {
 	for _, fv := range fn.FreeVars {
 		c := vc.Fresh("fv."+fv.Name(), w.Sorts.SortOf(fv.Type()))
 		f.assumeType(fv.Type(), c, st)
+		if _, isPtr := fv.Type().Underlying().(*types.Pointer); isPtr {
+			// a captured variable is passed by address: never nil
+			vc.Assume(Ne(c, IntLit(0)))
+		}
 		f.env[fv] = Val{T: c}
 	}
 	if fc == nil {
@@ -605,6 +609,25 @@ func (w *World) VerifyFunc(fn *ssa.Function) *VC {
 	if fc.Implements != "" && len(args) > 0 {
 		if sv, ok := f.selfIface(fn, args[0]); ok {
 			vars["self"] = sv
+		}
+	}
+	// a closure's contract may name its captured variables (entry values)
+	for _, fv := range fn.FreeVars {
+		if _, dup := vars[fv.Name()]; dup {
+			continue
+		}
+		bv := f.env[fv]
+		pt, ok := fv.Type().Underlying().(*types.Pointer)
+		if !ok {
+			vars[fv.Name()] = SVal{T: bv.T, Go: fv.Type()}
+			continue
+		}
+		if _, isStruct := pt.Elem().Underlying().(*types.Struct); isStruct && bv.Loc == nil {
+			vars[fv.Name()] = SVal{T: bv.T, Go: pt.Elem(), Ref: true}
+			continue
+		}
+		if lv, ok := f.tryLoad(bv, pt.Elem(), heap); ok {
+			vars[fv.Name()] = SVal{T: lv, Go: pt.Elem()}
 		}
 	}
 	pre := &SpecEnv{W: w, Vars: vars, Heap: heap, Old: heap, Scope: fc.ScopePkg, Side: vc}
